@@ -117,3 +117,17 @@ CHECKS["C12"] = {
     "note": TRUST + " The protocol object behind the data queue is a pause/resume stub; non-minimal length encodings and mask direction are not judged; "
             "for a corrupt deflate stream any error is accepted (no code is specified).",
 }
+
+CHECKS["C11"] = {
+    "engine": "SCHED",
+    "design_ref": "§3 C11, §2.1-2.3, §2.5",
+    "technique": "exhaustive message-sequence x configuration x cut enumeration (writer -> reader) plus deviation-bounded schedule exploration of concurrent senders",
+    "text": "seq: every sequence of up to 2 messages (3 over the small sizes) over TEXT/BINARY x sizes {0,1,125,126,127,16383,16384,16385,65535,65536} and PING/PONG is "
+            "sent through the real WebSocketWriter for every (mask, wbits 0/9/15 [9..15 thorough], notakeover, per-message compress) configuration and read back by "
+            "the real WebSocketReader whole, under every single cut / byte-at-a-time (<=160 bytes) or all structural cuts.  conc: 2-3 sender tasks share one writer; "
+            "executor completions of large compressed frames and cancellation of any sender at any loop pass are environment events, every schedule with <= d "
+            "deviations is run; the reader must deliver without error an interleaving that keeps each task's order, contains every message whose send returned, "
+            "and nothing that was not sent.",
+    "note": TRUST + " d=2 quick, 3 thorough. Executor jobs complete atomically when delivered; a job whose awaiting task was cancelled still runs (its result is dropped), as a "
+            "started thread would. Masks come from a fixed-seed Random.",
+}
